@@ -6,6 +6,12 @@ T_keep) is shelved through the API, the interactive Shelver (scripted prompts) o
 is compared with the state the statement prescribes (basis side of every selected item, working side of every
 other one); the shelf is unshelved onto the untouched result and the tree must equal the pre-shelve tree; shelf
 ids are checked against a tiny live-set model after every manager operation.
+
+Histories and targets: the tree has one commit (target = basis tree), or two commits and the shelve is made against the basis tree, or two
+commits and the shelve is made against the OLDER revision (ShelfCreator(tree, revision_tree(base-1)), Shelver(tree, that tree), shelve -r 1):
+"the changes" are then those between that revision and the working tree, the model's basis side is that revision, and the shelf must
+record it as its base.  In some cases ten or more (thorough: rarely a hundred) shelves are piled up before the judged rounds, so that ids
+of different decimal widths are alive together.
 """
 import contextlib
 import io
@@ -22,22 +28,26 @@ TECHNIQUE = ("state-model monitor on real ShelfCreator/ShelfManager/Unshelver/Sh
 LEVEL_TEXT = ("generated pending-change programs on bzr working trees; random selections of shelvable items incl. per-region line choice; "
               "API, scripted interactive Shelver and command paths; every shelve judged against the statement's own model, every unshelve against "
               "the recorded pre-shelve disk + versioning + iter_changes; shelf ids judged after every manager operation")
-RULE = ("case = base tree (3-7 files of 8-30 lines, dirs, symlinks, exec bits) + 2-9 (quick) / 2-16 (thorough) pending ops (multi-hunk edits, renames, moves, "
+RULE = ("case = base tree (3-7 files of 8-30 lines, dirs, symlinks, exec bits) [+ 1-5 ops committed as a second revision in 40% of the cases; in 28% the shelve "
+        "target is then the older revision] [+ 10-13 piled-up shelves in 9%] + 2-9 (quick) / 2-16 (thorough) pending ops (multi-hunk edits, renames, moves, "
         "adds, removes, kind/exec/symlink-target changes, replace/swap layouts) + selection of iter_shelvable items; one evaluation = one shelve+unshelve "
         "round judged; non-trivial = at least one item selected and at least one left (or a line-level mix); distinct = item kinds x selection x outcome class")
 CASES = {"quick": 480, "thorough": 9000}
 BUDGET_S = {"quick": 22, "thorough": 640}
 # floors sized for a heavily loaded shared machine (one OS file-lock call was measured at 0.2 s there, 16 worker start-ups at 30+ s)
 MIN_EVALS = {"quick": 30, "thorough": 800}
-FLOORS = {"quick": {"oracle_post_shelve": 25, "oracle_roundtrip": 20, "oracle_shelf_ids": 200, "oracle_lines_mix": 2},
+FLOORS = {"quick": {"oracle_post_shelve": 25, "oracle_roundtrip": 20, "oracle_shelf_ids": 200, "oracle_lines_mix": 2,
+                    "oracle_roundtrip_older_target": 3, "oracle_shelf_ids_mixed_width": 8},
           "thorough": {"oracle_post_shelve": 700, "oracle_roundtrip": 500, "oracle_shelf_ids": 4000, "oracle_lines_mix": 50,
-                       "oracle_ui_hunks": 30, "oracle_cmd_shelve": 30, "oracle_shelf_content": 30}}
+                       "oracle_ui_hunks": 30, "oracle_cmd_shelve": 30, "oracle_shelf_content": 30,
+                       "oracle_roundtrip_older_target": 100, "oracle_shelf_ids_mixed_width": 500}}
 ASSUMPTIONS = [
     "selections are subsets of what iter_shelvable() offers; an executable-bit change of a file present on both sides is never offered and is judged only through 'shelve everything leaves the basis'",
     "ids that were versioned-but-missing on disk before shelving are not judged (the statement does not say what restoring them means)",
     "selections whose result (basis + unselected) is not a well-formed tree may be refused; they are counted, not judged",
     "unversioned files below a directory that the selection moves or removes are not judged after the shelve (they are judged after the round trip)",
     "git working trees refuse shelving (ShelvingUnsupported): counted, not judged",
+    "target trees are the basis tree or the one older mainline revision of a two-revision branch; trees of other branches are not used as targets",
 ]
 
 MESSAGES = [None, "msg", "wip: half done", "unicodé ✓", "two\nlines", ""]
@@ -59,6 +69,19 @@ def _open(p):
     return WorkingTree.open(p)
 
 
+# The tree the current case shelves against ("target tree"): None = the working tree's basis tree (plain `shelve`), a revision id =
+# that older revision of the branch (`shelve -r REV`).  Set once per case (a worker runs its cases one after the other); every
+# observation of "the changes of the tree" and every ShelfCreator of the case uses it.
+CUR = {"target": None}
+
+
+def target_of(wt):
+    """The case's target tree (call with the tree locked)."""
+    if CUR["target"] is None:
+        return wt.basis_tree()
+    return wt.branch.repository.revision_tree(CUR["target"])
+
+
 class Snap:
     """Fresh objects, one lock cycle (OS file locks are the dominant cost on a loaded machine)."""
 
@@ -67,10 +90,11 @@ class Snap:
         with wt.lock_read():
             self.root, self.work = M.observe_tree(wt, True)
             self.disk = observe.snap_disk(p)
-            self.changes = M.observe_changes(wt)
+            target = target_of(wt)
+            self.changes = M.observe_changes(wt, target)
             self.conflicts = [repr(c) for c in wt.conflicts()]
-            if with_basis:
-                self.basis = M.observe_tree(wt.basis_tree(), False)[1]
+            if with_basis:  # state of the target tree (named basis throughout: it is the basis tree unless the case shelves against an older revision)
+                self.basis = M.observe_tree(target, False)[1]
         self.paths, self.problems = M.paths_of(self.work, self.root)
 
 
@@ -79,8 +103,9 @@ class Snap:
 class Shelves:
     """Live-set model of the ShelfManager, checked after every manager operation."""
 
-    def __init__(self, ctx, p):
+    def __init__(self, ctx, p, rev=b"base-1"):
         self.ctx, self.p, self.live = ctx, p, {}
+        self.rev = rev  # revision of the target tree every shelf of this case is made against: what the shelf must record as its base
 
     def mgr(self, wt=None):
         return (wt or _open(self.p)).get_shelf_manager()  # fresh object every time; takes no lock
@@ -117,6 +142,12 @@ class Shelves:
         c.count("oracle_shelf_ids")
         act = m.active_shelves()
         exp = sorted(self.live)
+        if len({len(str(i)) for i in exp}) > 1:
+            c.count("oracle_shelf_ids_mixed_width")  # ids of different decimal widths are alive together (numeric order != name order)
+        if len(exp) >= 10:
+            c.count("oracle_shelf_ids_10plus")
+        if len(exp) >= 100:
+            c.count("oracle_shelf_ids_100plus")
         if act != exp:
             c.fail("ids:active-shelves-differ-from-live-set", "%s: active %r, created-and-not-deleted %r" % (where, act, exp))
         if any(b <= a for a, b in zip(act, act[1:])):
@@ -133,7 +164,8 @@ class Shelves:
                 continue
             if md.get(b"message") != msg:
                 c.fail("ids:shelf-message-changed", "%s: shelf %r message %r, stored with %r" % (where, sid, md.get(b"message"), msg))
-            c.check(md.get(b"revision_id") == b"base-1", "ids:metadata-revision", "shelf %r records %r" % (sid, md.get(b"revision_id")))
+            c.check(md.get(b"revision_id") == self.rev, "ids:metadata-revision", "shelf %r records base revision %r, its changes were computed against %r" % (
+                sid, md.get(b"revision_id"), self.rev))
 
     def gone(self, sid, where):
         from breezy import shelf
@@ -154,24 +186,33 @@ class Shelves:
         self.ctx.hist("idop:delete")
         self.gone(sid, "after-delete")
 
-    def traffic(self, rng, n, protect=()):
-        """n manager operations: shelves with nothing selected (legal: an empty shelf) and deletions (also of middle shelves)."""
+    def traffic(self, rng, n, protect=(), fill_to=0):
+        """n manager operations: shelves with nothing selected (legal: an empty shelf) and deletions (also of middle shelves).
+
+        fill_to: first pile up shelves (few deletions) until that many are alive at once.
+        """
         from breezy import shelf
 
-        if not n:
+        if not n and not fill_to:
             return
         wt = _open(self.p)
         with wt.lock_tree_write():
-            for _ in range(n):
+            left = n
+            while left > 0 or len(self.live) < fill_to:
+                filling = len(self.live) < fill_to
+                if filling:
+                    self.ctx.hist("idop:pile-up")
+                else:
+                    left -= 1
                 cand = [i for i in self.live if i not in protect]
-                if cand and rng.random() < 0.4:
+                if cand and rng.random() < (0.12 if filling else 0.4):
                     sid = rng.choice(cand)
                     self.ctx.hist("idop:delete-%s" % ("last" if sid == max(self.live) else "middle-or-first"))
                     wt.get_shelf_manager().delete_shelf(sid)
                     self.gone(sid, "after-delete")
                     continue
                 msg = rng.choice(MESSAGES)
-                creator = shelf.ShelfCreator(wt, wt.basis_tree())
+                creator = shelf.ShelfCreator(wt, target_of(wt))
                 try:
                     list(creator.iter_shelvable())
                     sid = wt.get_shelf_manager().shelve_changes(creator, msg)
@@ -255,7 +296,7 @@ def shelve_api(ctx, rng, p, pre, basis, shelves, msg, force_all=False):
     stats = {"mixed_files": 0, "regions": 0, "shelf_lines": {}}
     sid, exc = None, None
     with wt.lock_tree_write():
-        creator = shelf.ShelfCreator(wt, wt.basis_tree())
+        creator = shelf.ShelfCreator(wt, target_of(wt))
         try:
             items = list(creator.iter_shelvable())
             check_items(ctx, items, pre, basis)
@@ -377,8 +418,9 @@ def shelve_ui(ctx, rng, p, pre, basis, msg):
     exc = None
     wt = _open(p)
     try:
-        shelver = Scripted(wt, wt.basis_tree(), diff_writer=io.BytesIO(), auto=False, auto_apply=rng.random() < 0.4,
-                           message=msg, destroy=destroy)
+        with wt.lock_tree_write():
+            shelver = Scripted(wt, target_of(wt), diff_writer=io.BytesIO(), auto=False, auto_apply=rng.random() < 0.4,
+                               message=msg, destroy=destroy)  # takes its own tree-write lock, released by finalize()
         try:
             shelver.run()
         except errors.UserAbort:
@@ -474,6 +516,10 @@ def shelve_cmd(ctx, rng, p, pre, basis, msg, basis_paths):
     argv = ["--all"]
     if msg is not None:
         argv += ["-m", msg] if rng.random() < 0.5 else ["--message=" + msg]
+    if CUR["target"] is not None:  # shelve the changes since an older revision
+        argv += rng.choice([["-r", "1"], ["-r1"], ["-r", "revid:" + CUR["target"].decode()], ["--revision=1"]])
+    elif rng.random() < 0.15:  # the default target, spelled out
+        argv += ["-r", "-1"]
     spec = []
     req = required_tokens(basis, pre.work, pre.root)
     if rng.random() < 0.45 and req:
@@ -760,6 +806,8 @@ def compare_roundtrip(ctx, p, rd, conflicts_reported, exc):
     pre, sel, info = rd.pre, rd.sel, rd.info
     act = Snap(p)
     ctx.count("oracle_roundtrip")
+    if CUR["target"] is not None:
+        ctx.count("oracle_roundtrip_older_target")
     keys = {}
 
     def fail(key, msg):
@@ -969,10 +1017,19 @@ def case(ctx):
     log = []
     ctx.info["ops"] = log
     fmt = "2a" if rng.random() < 0.9 else rng.choice(["pack-0.92", "1.9-rich-root"])
+    # history and target tree: one commit (the target is the basis tree); two commits, shelving against the basis tree (base-2); two commits,
+    # shelving against the OLDER revision (shelve -r 1): the changes are then those between base-1 and the working tree
+    r = rng.random()
+    history = "one-commit" if r < 0.60 else "two-commits:target-basis" if r < 0.72 else "two-commits:target-older"
+    CUR["target"] = b"base-1" if history == "two-commits:target-older" else None
     try:
         wt = gen.make_tree(p, fmt)
         with wt.lock_write():  # one lock cycle for the whole construction
             G.build_base(rng, wt, names)
+            if history != "one-commit":
+                G.pending(rng, wt, names, rng.randint(1, 5), log, idprefix="m")
+                wt.commit("second", rev_id=b"base-2")
+                log.append({"commit": "base-2"})
             nops = rng.randint(2, 9) if ctx.tier == "quick" else rng.randint(2, 16)
             G.pending(rng, wt, names, nops, log)
         del wt
@@ -986,9 +1043,15 @@ def case(ctx):
     if not required_tokens(basis, pre.work, pre.root):
         ctx.discard("no-pending-changes")
     ctx.hist("format:" + fmt)
-    shelves = Shelves(ctx, p)
+    ctx.hist("history:" + history)
+    shelves = Shelves(ctx, p, b"base-2" if history == "two-commits:target-basis" else b"base-1")
     shelves.verify("initial")
-    shelves.traffic(rng, rng.choice([0, 0, 1, 2, 3]))
+    # sometimes ten or more shelves are alive at once (ids of different decimal widths), rarely (thorough) a hundred
+    fill_to = 0
+    if rng.random() < 0.09:
+        fill_to = rng.randint(100, 102) if ctx.tier != "quick" and rng.random() < 0.03 else rng.randint(10, 13)
+        ctx.hist("shelves-piled-up:%s" % ("100+" if fill_to >= 100 else "10+"))
+    shelves.traffic(rng, rng.choice([0, 0, 1, 2, 3]), fill_to=fill_to)
 
     rounds = []
     nrounds = 2 if rng.random() < 0.25 else 1
